@@ -1059,7 +1059,7 @@ func (c *Ctx) execFor(x *ast.ForStmt, st *State) Flow {
 		if exit == nil {
 			return f
 		}
-		c.addObl(Obl{Name: key + "/loop.post", Kind: "loop.post", Guard: exit.guard, Goal: ls.PostFn(c, before, exit), Pos: c.pos(x.Pos()), Text: "summary of the unrolled loop holds at its exit"})
+		c.addObl(Obl{Name: key + "/loop.post", Kind: "loop.post", Guard: exit.guard, Goal: ls.PostFn(c, before, exit), Pos: c.pos(x.Pos()), Text: "summary of the unrolled loop holds at its exit", CutGuard: before.guard, CutSyms: c.entrySymbols(before)})
 		h := c.havoc(before, c.modsOf(x.Body, x.Post))
 		c.assume(implies(h.guard, ls.PostFn(c, before, h)))
 		return Flow{next: h}
@@ -1119,6 +1119,34 @@ func (c *Ctx) execFor(x *ast.ForStmt, st *State) Flow {
 		}
 	}
 	return Flow{next: c.mergeAll(append([]*State{exit}, f.brk...))}
+}
+
+// entrySymbols: the plain constants that hold the values of the scalar variables and byte regions in st (the
+// context-free attempt at a loop summary leaves them unconstrained: the summary must hold for any values)
+func (c *Ctx) entrySymbols(st *State) []string {
+	var out []string
+	seen := map[string]bool{}
+	add := func(t string) {
+		if t != "" && !seen[t] && genSymRe.MatchString(t) && !strings.ContainsAny(t, " ()") {
+			seen[t] = true
+			out = append(out, t)
+		}
+	}
+	for _, v := range st.env {
+		switch x := v.(type) {
+		case Scalar:
+			add(x.T)
+		case SliceV:
+			add(x.Len)
+			add(x.Off)
+			add(x.Arr)
+		}
+	}
+	for _, h := range st.heap {
+		add(h)
+	}
+	sort.Strings(out)
+	return out
 }
 
 func (c *Ctx) addNamedMods(m *modSet, names []string, st *State) {
